@@ -1210,5 +1210,13 @@ func TestReplay(t *testing.T) {
 		"TestConcurrent":            replayCase,
 		"TestDataTokenizerBoundary": replayBoundary,
 		"TestStoreContract":         replayStore,
+		"TestTranslatorHTTPTokens": func(raw json.RawMessage) hx.Vs {
+			var c HTTPTokCase
+			if err := json.Unmarshal(raw, &c); err != nil {
+				return hx.Vs{{Sig: "harness:decode", Msg: err.Error()}}
+			}
+			vs, _ := CheckHTTPTokens(c)
+			return vs
+		},
 	})
 }
